@@ -23,10 +23,10 @@ Definition preset_of (n : N) : preset :=
 (* 701: args [alg; nb; na; now; mode; corrupt]; the abstract certificate inputs are in the observation (out[1]) *)
 Definition chk_701 (a o : list (list N)) : bool :=
   match o with
-  | [[_; code]; [nb; na; ec; p256]] =>
+  | [_; code] :: [nb; na; ec; p256] :: h :: set =>
       let corrupt := argn 0 5 a in
-      let mode := argn 0 4 a in
-      let hash_in := ((mode =? 1) || (mode =? 3)) && (corrupt =? 0) in
+      (* the configured set and the SHA-256 of the presented certificate are observed; membership is the model's *)
+      let hash_in := existsb (list_eqb h) set in
       let c := mkcertv (negb (corrupt =? 1)) nb na (ec =? 1) (p256 =? 1) in
       code =? pin_idx (pin_verify c (argn 0 3 a) hash_in)
   | _ => false
@@ -69,7 +69,8 @@ Definition model (f : N) (a : list (list N)) : list (list N) :=
                 | Ip6Unspecified => match v6only dual with Some true => 0 | _ => 1 end
                 end in
       let v6 := match ip with Ip4Localhost | Ip4Unspecified => 0 | _ => 1 end in
-      [[1]; ip_out ip; if role =? 0 then [1; v4; v6] else [1; 7; 7]; []]
+      (* server role: reachable from the v4 / v6 loopback; client role: can reach a server on the v4 / v6 loopback *)
+      [[1]; ip_out ip; [1; v4; v6]; []]
   | 751 =>
       let ok := match idle_accept (argn 0 0 a) (argn 0 1 a) with Some _ => 1 | None => 0 end in
       [[1; ok; ok; 1]]
